@@ -35,7 +35,7 @@ META = {
     "design_ref": "DESIGN.md §3 C04",
     "engines": ["sched", "backends"],
 }
-REQUIRED = ("tokens_enqueued", "tokens_claimed", "asks", "schedules", "schedules_b_inside_window", "soak_rounds", "process_rounds", "sequential_rounds")
+REQUIRED = ("tokens_enqueued", "tokens_claimed", "asks", "schedules", "schedules_b_inside_window", "soak_rounds", "process_rounds", "sequential_rounds", "rounds_with_a_neighbour_study_in_the_same_storage", "rounds_with_a_relative_sampler")
 SHARDS = {"quick": 14, "thorough": 16}
 WATCHDOG_S = {"quick": 1200, "thorough": 5 * 3600}
 BUDGET_S = {"quick": 70, "thorough": 2400}
@@ -43,15 +43,32 @@ CONFIGS = ["inmemory", "journal_file", "sqlite", "cached_sqlite", "journal_redis
 
 
 class Arena:
-    def __init__(self, kind: str, n_consumers: int, tag: str, grpc_workers: int = 10) -> None:
+    def __init__(self, kind: str, n_consumers: int, tag: str, grpc_workers: int = 10, neighbour: bool = False, sampler: str = "random") -> None:
         import optuna
 
         self.kind = kind
         self.store = backends.Store(kind, grpc_workers=grpc_workers) if kind.startswith("grpc:") else backends.Store(kind)
         self.name = f"c04-{tag}"
-        self.producer = optuna.create_study(storage=self.store.client(), study_name=self.name, sampler=optuna.samplers.RandomSampler(seed=0))
+        first = self.store.client()
+        self.neighbour = None
+        if neighbour:
+            # another study lives in the same storage and already has trials: in this study trial ids differ from trial numbers
+            self.neighbour = optuna.create_study(storage=first, study_name=self.name + "-neighbour", sampler=optuna.samplers.RandomSampler(seed=99))
+            self.neighbour.enqueue_trial({"x": 999.0})
+            for _ in range(3):
+                self.neighbour.tell(self.neighbour.ask(), 0.0)
+
+        def mk_sampler(seed: int):
+            # samplers with a relative search space (once there is history) must not override an enqueued value either
+            if sampler == "tpe_multivariate":
+                return optuna.samplers.TPESampler(seed=seed, multivariate=True, n_startup_trials=1)
+            if sampler == "qmc":
+                return optuna.samplers.QMCSampler(seed=seed, scramble=True)
+            return optuna.samplers.RandomSampler(seed=seed)
+
+        self.producer = optuna.create_study(storage=first, study_name=self.name, sampler=mk_sampler(0))
         self.consumers = [optuna.load_study(storage=(self.store.client() if self.store.multi_client else self.producer._storage), study_name=self.name,
-                                            sampler=optuna.samplers.RandomSampler(seed=i + 1)) for i in range(n_consumers)]
+                                            sampler=mk_sampler(i + 1)) for i in range(n_consumers)]
         self.tokens: dict[int, dict] = {}   # token -> {"how", "value", "number"}
         self.next_token = 1
         self.records: list[dict] = []
@@ -168,9 +185,14 @@ def judge(ctx: Ctx, ar: Arena, facts: dict, case: dict, expect_drained: bool) ->
 
 # ---------------------------------------------------------------------------------------- (a) sequential
 def sequential_round(ctx: Ctx, rng, kind: str, idx: int) -> None:
-    ar = Arena(kind, rng.randint(2, 4), f"{ctx.shard[0]}-s{idx}")
+    nb, smp = rng.random() < 0.5, rng.choice(["random", "random", "tpe_multivariate", "qmc"])
+    ar = Arena(kind, rng.randint(2, 4), f"{ctx.shard[0]}-s{idx}", neighbour=nb, sampler=smp)
     try:
         nC = len(ar.consumers)
+        if nb:
+            ctx.count("rounds_with_a_neighbour_study_in_the_same_storage")
+        if smp != "random":
+            ctx.count("rounds_with_a_relative_sampler")
         # some consumers ask on the EMPTY queue first (they get fresh trials)
         for ci in rng.sample(range(nC), rng.randint(0, nC)):
             ar.consume(ci, rng.choice(["complete", "fail", "leave_running"]))
@@ -179,13 +201,15 @@ def sequential_round(ctx: Ctx, rng, kind: str, idx: int) -> None:
         for _ in range(steps):
             if rng.random() < 0.45:
                 ar.enqueue(rng.choice(hows), rng, study=rng.choice([ar.producer] + ar.consumers) if rng.random() < 0.3 else None)
+            elif ar.neighbour is not None and rng.random() < 0.2:
+                ar.neighbour.tell(ar.neighbour.ask(), 0.0)      # the neighbour's ids interleave with this study's
             else:
                 ar.consume(rng.randrange(nC), rng.choice(["complete", "complete", "fail", "leave_running"]))
         # drain: every consumer keeps asking; more asks than tokens outstanding
         for j in range(len(ar.tokens) + nC):
             ar.consume(j % nC)
         ctx.count("sequential_rounds")
-        case = {"driver": "sequential", "backend": kind, "round": idx, "seed": ctx.seed, "consumers": nC, "tokens": len(ar.tokens)}
+        case = {"driver": "sequential", "backend": kind, "round": idx, "seed": ctx.seed, "consumers": nC, "tokens": len(ar.tokens), "neighbour_study": nb, "sampler": smp}
         ctx.case(case, len(ar.tokens) >= 2)
         judge(ctx, ar, {"driver": "sequential", "storage_calls_overlapped": False}, case, expect_drained=True)
     finally:
